@@ -136,18 +136,18 @@ Example C15_nonvacuous_lookup :
   | ROk (m, ast) =>
       node_ctxs m ctx_global ast = ROk [[tx [103]]; [tx [103]; tx [97]]; [tx [103]; tx [97]]; [tx [104]];
                                         [tx [104]; tx [97]]; [tx [104]; tx [97]; tx [98]]] /\
-      (* `.a` under g is item 1, under h item 4; `g.a` from anywhere is 1; `..b` before its declaration is 5 *)
+      (* `.a` under g is item 1, under h item 3; `g.a` from anywhere is 1; `..b` before its declaration is 4 *)
       try_get_by_name m [tx [103]; tx [97]] 1 [tx [97]] = ROk (Some 1) /\
-      try_get_by_name m [tx [104]; tx [97]] 1 [tx [97]] = ROk (Some 4) /\
+      try_get_by_name m [tx [104]; tx [97]] 1 [tx [97]] = ROk (Some 3) /\
       try_get_by_name m [tx [104]; tx [97]] 0 [tx [103]; tx [97]] = ROk (Some 1) /\
-      try_get_by_name m [tx [104]; tx [97]] 2 [tx [98]] = ROk (Some 5) /\
+      try_get_by_name m [tx [104]; tx [97]] 2 [tx [98]] = ROk (Some 4) /\
       try_get_by_name m [tx [103]; tx [97]] 2 [tx [98]] = ROk None /\
       try_get_by_name m [tx [104]] 2 [tx [98]] = ROk None
   | _ => False
   end /\
   match scopes (prog_of ex_nodes) with
-  | Some (encls, F) => encls = [[0]; [0; 1]; [0; 1]; [3]; [3; 4]; [3; 4; 5]] /\
-                       scope_resolve F [3; 4] 2 [tx [98]] = Some 5 /\ scope_resolve F [0; 1] 1 [tx [97]] = Some 1
+  | Some (encls, F) => encls = [[0]; [0; 1]; [0; 1]; [2]; [2; 3]; [2; 3; 4]] /\
+                       scope_resolve F [2; 3] 2 [tx [98]] = Some 4 /\ scope_resolve F [0; 1] 1 [tx [97]] = Some 1
   | None => False
   end.
 Proof. vm_compute. repeat split. Qed.
